@@ -461,8 +461,18 @@ def build_sched(sched, seed):
         case.update({"b1": budget - 6, "b2": 6, "K": 2, "n_average": 1, "kappa": 0.5,
                      "solved": -1e9, "unsolvable": 1e9})
     if sched == "amt":
-        case.update({"selector": str(r.choice(["Round Robin", "1-step Progress", "Best Reward", "Diversity"])),
-                     "r_max": 10.0, "ducb_gamma": 0.95, "xi": 0.5})
+        # tie_prone: every episode of every task returns exactly the same value (all rewards zero) and the
+        # bandit does not discount, so the arms' scores tie exactly once the round-robin warm-up is over --
+        # the moment at which a tie-break decides which task is trained next
+        tie_prone = bool(r.random() < 0.6)
+        case.update({"selector": str(r.choice(["Monotonic Progress", "1-step Progress", "Best Reward"] if tie_prone else
+                                              ["Round Robin", "1-step Progress", "Best Reward", "Diversity"])),
+                     "r_max": 10.0, "ducb_gamma": 1.0 if tie_prone else 0.95,
+                     "xi": float(r.choice([0.5, 0.002])), "zero_reward": tie_prone})
+        if tie_prone:
+            case["n_tasks"] = 3
+            case["budget"] = int(r.integers(44, 57))
+            case["scripts"] = [[[2, "trunc"]] for _ in case["scripts"]][: (1 if kind == "discrete" else 3)]
     return case
 
 
@@ -479,6 +489,9 @@ def execute_sched(case):
     scripts_ = case["scripts"] if case["taskset"] == "vector" else case["scripts"][:1] * n
     ts, log, _, task_of, envs = R11.make_task_set(case["taskset"], scripts_, case["script_seed"], space,
                                                  3 * budget + 60)
+    if case.get("zero_reward"):
+        for e in envs:
+            e.reward_scale = 0.0
     ad = R11.ADAPTERS[case["backbone"]](dict(case["cfg"]))
     ad.setup(envs[0])
     bb = ad.partial()
@@ -541,7 +554,8 @@ def run_sched_pair(case):
     differs = bool(_diff(a, c))
     nt = differs and info["tasks_trained"] >= 3
     return Outcome(labels=[name, case["backbone"], case["taskset"], f"tasks-trained={min(info['tasks_trained'], 4)}",
-                           "seed-sensitive" if differs else "seed-insensitive"],
+                           "seed-sensitive" if differs else "seed-insensitive"]
+                   + (["tie-prone-bandit"] if case.get("zero_reward") else []),
                    nontrivial=nt, fp=case)
 
 
@@ -580,5 +594,5 @@ SUBCHECKS = (
     [_sub(n, 2, 20, _COST.get(n, 3.0)) for n in
      R.DQN_FAMILY + R.CONTINUOUS_OFF_POLICY + ("reinforce", "actor_critic", "a2c", "ppo") + R.TABULAR + ("cmaes",)]
     + [_xsub(n, 10.0) for n in ("td3", "sac", "ddqn_per", "td7", "mrq", "ppo", "dynaq", "cmaes")]
-    + [_ssub("smt", 3, 24), _ssub("uts", 2, 16), _ssub("amt", 2, 16)]
+    + [_ssub("smt", 3, 24), _ssub("uts", 2, 16), _ssub("amt", 4, 24)]
 )
